@@ -11,6 +11,8 @@ from __future__ import annotations
 
 import importlib
 
+from ref import at4 as r4
+from ref import at5 as r5
 from sx.values import SymBool
 
 from . import catalog
@@ -29,7 +31,7 @@ ASSUMPTIONS = ["'no timer or task remains' is observed as: the virtual loop has 
 def bounds(tier):
     return {"phases": ["refusing", "connecting", "handshake", "initialised", "pending", "after_failed_init", "backoff"],
             "socket_level_close": ["down_queue", "connecting", "write_suspended", "backoff"],
-            "shutdown_instant": "symbolic within the phase's window", "race_with_handshake_answer": "steps 0..5 x 0..23 loop turns after the request, same instant", "idle_horizon_s": 700, "reinit": True,
+            "shutdown_instant": "symbolic within the phase's window", "race_with_handshake_answer": "steps 0..5 x 0..23 loop turns after the request, same instant", "race_other_anchors": "0..23 loop turns after: first connection accepted; link reset with immediate reconnect; a zone status push with subscribers", "idle_horizon_s": 700, "reinit": True,
             "second_shutdown_of_the_new_session": tier == "thorough"}
 
 
@@ -48,6 +50,8 @@ def instances(tier):
             out.append({"phase": "sock_close", "gen": g, "scenario": sc})
         for st in range(6):
             out.append({"phase": "race", "gen": g, "step": st})
+        for anchor in ("accept", "reset", "push"):
+            out.append({"phase": "race", "gen": g, "anchor": anchor})
         for st in (3, 4):
             # the console also broadcasts its zone/group status unsolicited right behind the answer (as consoles do on any change)
             out.append({"phase": "race", "gen": g, "step": st, "broadcast": True})
@@ -66,6 +70,10 @@ def _b(x):
     return bool(x) if isinstance(x, SymBool) else x
 
 
+async def _noop_sub(*a, **kw):
+    return None
+
+
 def run(ctx, p):
     if p["phase"] == "sock_close":
         return _sock_close(ctx, p)
@@ -82,7 +90,7 @@ def run(ctx, p):
     if phase == "race":
         # shutdown() is called k loop turns after the console received the request of handshake step `step`, at the same
         # virtual instant: the answer is then in flight / buffered / being handled (handler suspended in a notification)
-        ts = 0
+        ts = 0 if p.get("anchor", "request") in ("request", "accept") else 1.0
         k_turns = ctx.choice("turns", RACE_TURNS)
     else:
         ts = ctx.real("ts", window[0], window[1])
@@ -144,7 +152,36 @@ def run(ctx, p):
                     armed["on"] = False
                     hop(k_turns)
 
-            con.on_request = on_request
+            anchor = p.get("anchor", "request")
+            if anchor == "request":
+                con.on_request = on_request
+            elif anchor == "accept":
+                # k turns after the first connection was handed to the client (connection notification / first request)
+                rig.net.on_accept = lambda conn: (hop(k_turns) if armed.pop("on", False) else None)
+            elif anchor == "reset":
+                # initialised; the link is reset and the console accepts again at once: shutdown() falls into the
+                # disconnect notification / immediate reconnect / refresh requests
+                def reset_now():
+                    c = rig.net.current()
+                    if c:
+                        c.reset()
+                    hop(k_turns)
+                rig.loop.vt_call_at(1.0, reset_now)
+            elif anchor == "push":
+                # initialised, an API subscriber is registered; a changed zone status arrives: shutdown() falls into the
+                # model update / subscriber notification
+                def push_now():
+                    for a in rig.at.air_conditioners:
+                        for z in a.zones:
+                            z.subscribe(_noop_sub)
+                    for n in list(inst.zone_status):         # every zone reports a different damper opening
+                        if g.n == 4:
+                            inst.zone_status[n] = r4.build_group_status(n, 1, 1, 35, 0, 1, 22, 1, 730, 0)
+                        else:
+                            inst.zone_status[n] = r5.build_zone_status(n, 1, 1, 35, 120, 1, 730, 0, 0)
+                    con.push(con.zone_status_frame(pid=0x7D))
+                    hop(k_turns)
+                rig.loop.vt_call_at(1.0, push_now)
             if p.get("broadcast"):
                 con.silent.add(STEPS[p["step"] + 1])       # the next request stays unanswered: only the broadcast is in the buffer
                 con.extra[STEPS[p["step"]]] = [("after", con.zone_status_frame(pid=0x7E))]
@@ -153,7 +190,9 @@ def run(ctx, p):
         rig.run(ts + 1.0)
         detail = {"phase": phase, "step": p.get("step")}
         if phase == "race":
+            detail["anchor"] = p.get("anchor", "request")
             detail["turns_after_request"] = k_turns
+            rig.net.on_accept = None
             con.on_request = None
             con.extra.clear()
         ctx.check("at" in done, "nothing_after_shutdown", detail=dict(detail, why="shutdown() did not return within 1 s"))
